@@ -67,7 +67,7 @@ def run(prop, tier, seed):
                 lok, lout = core.leanchecker(getattr(P, "LEANCHECK_MODULES", [P.LEAN_MODULE]))
                 if not lok:
                     broken.append(("leanchecker", lout[-800:]))
-        dok, dout, dfails = core.build(["nixdriver"])
+        dok, dout, dfails = core.build([core.driver_target(prop)])
         if not dok:
             broken.append(("driver", "model driver does not build: %s" % ", ".join(dfails)))
 
